@@ -527,7 +527,13 @@ def make_config(rng, i, tier='quick', force=None):
     # the other trigger of a bound attempt: few likelihood calls since the last one (boundary: one batch)
     r3 = rng.random()
     cfg['n_like_new_bound'] = None if r3 < 0.7 else (cfg['n_batch'] if r3 < 0.85 else 3 * cfg['n_batch'] + 1)
-    if cfg['n_batch'] == 1:
+    # tiny regime (one configuration in five): very small live sets and update intervals put the run on many guards at once
+    # (empty shells removed at the end of exploration -- also the first one --, bounds built from a handful of points)
+    r4 = rng.random()
+    if r4 < 0.2:
+        cfg.update(n_live=int([5, 8, 12][int(r4 / 0.2 * 3) % 3]), n_update=int([1, 2][int(r4 / 0.2 * 2) % 2]), n_batch=int([1, 2, 3, 5][int(r4 / 0.2 * 4) % 4]),
+                   n_networks=0, n_eff=min(cfg['n_eff'], 100), resumes=max(cfg['resumes'], 1))
+    if cfg['n_batch'] == 1 and r4 >= 0.2:
         cfg['n_live'] = 30
         cfg['n_eff'] = min(cfg['n_eff'], 100)
         cfg['n_networks'] = 0
